@@ -327,7 +327,9 @@ def run_check(pid, cfg, tier, seed, jobs, replay=None):
         stages = stages[:1]
         seed = rj["seed"]
         tier = rj.get("tier", tier)
-    workroot = tempfile.mkdtemp(prefix="verif-%s-" % pid, dir=os.environ.get("VERIF_SCRATCH", build.BUILD_ROOT))
+    scratch = os.environ.get("VERIF_SCRATCH", build.BUILD_ROOT)
+    os.makedirs(scratch, exist_ok=True)
+    workroot = tempfile.mkdtemp(prefix="verif-%s-" % pid, dir=scratch)
     violations = []       # dicts
     known_hits = {}
     harness_errors = []
